@@ -160,6 +160,7 @@ def run_detached(toks, cff2, limit, num_regions=None, blend_ks=None, scal=None):
                 kw["scalars"] = lambda vs: [DYADIC[j % len(DYADIC)] for j in range(m.blend_ks_peek)]
     elif num_regions is not None:
         kw["num_regions"] = num_regions
+        kw["vsindex"] = None      # "the Private DICT's default": the callable resolves it (as the library does)
         if scal == "ones":
             kw["scalars"] = lambda vs: [1.0] * num_regions(vs)
         elif scal is not None:
@@ -1113,6 +1114,8 @@ def cases(tier, seed):
         add("bias", dialect="cff2s", g=1241, l=1240, gu=-1, lu=-1)
         add("bias", dialect="cff2s", g=1300, l=1245, gu=1240, lu=1240)
     for part in range(8 if T else 2):
+        add("seac", part=part)
+    for part in range(8 if T else 2):
         add("widths", part=part, n=300 if T else 150)
     recs = corpus.fonts(pred=CFF_PRED)
     if not T:
@@ -1678,7 +1681,7 @@ def _cff_table(data):
     return t2ref.parse_cff(raw)
 
 
-def _compare_bytes(ctx, op, data0, data1, mode, gids, diag):
+def _compare_bytes(ctx, op, data0, data1, mode, gids, diag, pairs=None):
     """Oracle layer on the compiled bytes: the reference machine with its own table reader (own INDEX
     counts, hence own subroutine biases) executes every glyph of the font before and after."""
     try:
@@ -1693,7 +1696,7 @@ def _compare_bytes(ctx, op, data0, data1, mode, gids, diag):
         ctx.violation({"kind": "render", "op": op, "oracle": "t2ref-bytes", "field": "unreadable"},
                       "%s: the rewritten CFF table cannot be read: %s" % (op, e), {})
         return
-    if len(t1.glyphs) != len(t0.glyphs):
+    if pairs is None and len(t1.glyphs) != len(t0.glyphs):
         ctx.judged()
         ctx.violation({"kind": "render", "op": op, "oracle": "t2ref-bytes", "field": "glyph-count"},
                       "%s: %d charstrings before, %d after" % (op, len(t0.glyphs), len(t1.glyphs)), {})
@@ -1703,7 +1706,7 @@ def _compare_bytes(ctx, op, data0, data1, mode, gids, diag):
     lim1 = 513 if t1.cff2 else 48
     lim0 = 513 if t0.cff2 else 48
     for loc in locs:
-        for g in gids:
+        for g, g1 in (pairs if pairs is not None else [(x, x) for x in gids]):
             if g >= len(t0.glyphs):
                 continue
             try:
@@ -1717,26 +1720,28 @@ def _compare_bytes(ctx, op, data0, data1, mode, gids, diag):
             ctx.judged()
             w = {"gid": g, "normalised_location": loc}
             try:
-                a = t1.run(g, loc)
+                if g1 >= len(t1.glyphs):
+                    raise t2ref.T2Error("glyph index %d not in the rewritten table" % g1)
+                a = t1.run(g1, loc)
             except t2ref.T2Error as e:
-                ctx.violation(dict({"kind": "render", "op": op, "oracle": "t2ref-bytes", "field": "unexecutable"}, **diag(g, g)),
+                ctx.violation(dict({"kind": "render", "op": op, "oracle": "t2ref-bytes", "field": "unexecutable"}, **diag(g, g1)),
                               "%s: glyph %d of the rewritten table cannot be executed: %s" % (op, g, e), w)
                 continue
             ok, why = (same_topology(b.path, a.path) if mode == "topology" else same_fill(b.path, a.path, 1e-6))
             if not ok:
-                ctx.violation(dict({"kind": "render", "op": op, "oracle": "t2ref-bytes", "field": "topology" if mode == "topology" else "path"}, **diag(g, g)),
+                ctx.violation(dict({"kind": "render", "op": op, "oracle": "t2ref-bytes", "field": "topology" if mode == "topology" else "path"}, **diag(g, g1)),
                               "%s: glyph %d draws differently per the reference machine on the bytes (%s)" % (op, g, why),
                               dict(w, before=b.path[:30], after=a.path[:30]))
             if b.width is not None and a.width is not None and not op.endswith((":convert", ":roundtrip")) and abs(b.width - a.width) > 1e-6:
-                ctx.violation(dict({"kind": "render", "op": op, "oracle": "t2ref-bytes", "field": "width"}, **diag(g, g)),
+                ctx.violation(dict({"kind": "render", "op": op, "oracle": "t2ref-bytes", "field": "width"}, **diag(g, g1)),
                               "%s: glyph %d width %r -> %r" % (op, g, b.width, a.width), w)
             new = sorted({_errclass(e) for e in a.errors} - {_errclass(e) for e in b.errors} - {"stack-overflow"})
             for e in new:
-                ctx.violation(dict({"kind": "render", "op": op, "oracle": "t2ref-bytes", "field": "arity" if e.startswith("arity") else "format", "error": e}, **diag(g, g)),
+                ctx.violation(dict({"kind": "render", "op": op, "oracle": "t2ref-bytes", "field": "arity" if e.startswith("arity") else "format", "error": e}, **diag(g, g1)),
                               "%s: glyph %d of the rewritten table violates the format: %s" % (op, g, [x for x in a.errors if _errclass(x) == e][:3]), w)
             if a.max_stack > lim1 and b.max_stack <= lim0:
                 # same mechanism field as FreeType's refusal of an over-deep charstring
-                ctx.violation(dict({"kind": "render", "op": op, "oracle": "t2ref-bytes", "field": "rejected"}, **diag(g, g)),
+                ctx.violation(dict({"kind": "render", "op": op, "oracle": "t2ref-bytes", "field": "rejected"}, **diag(g, g1)),
                               "%s: glyph %d operand stack depth %d at %s exceeds %d" % (op, g, a.max_stack, a.max_stack_op, lim1), w)
 
 
@@ -1905,6 +1910,136 @@ def _gfont_build(case, rnd, ctx):
             ctx.inconclusive("oracle disagreement t2ref/HarfBuzz on generated font glyph %d" % (i + 1))
             return None
     return data0, sp, local, glob, shared, cff2, dialect
+
+
+SEAC_BASES = [("A", 65), ("E", 69), ("a", 97), ("o", 111), ("n", 110)]
+SEAC_ACCENTS = [("acute", 194), ("grave", 193), ("dieresis", 200), ("circumflex", 195), ("tilde", 196)]
+
+
+def drv_seac(case, rnd, ctx):
+    """Name-keyed CFF fonts whose accented glyphs are composed by the seac form of endchar
+    (adx ady bchar achar endchar, with and without a leading width): subsetting to the accented glyphs
+    alone, and the other whole-font rewrites, must leave what they draw unchanged."""
+    from vmon.gen import c12_prog as GP, c12_font as GF
+    from fontTools.ttLib import TTFont
+    from fontTools import subset
+    names, progs = [], []
+
+    def outline_glyph():
+        while True:
+            d = _gen_item(rnd, "cff", "int", width=rnd.random() < 0.5)
+            r = _ref(d["program"], False, False)
+            if not isinstance(r, str) and not r.errors and r.width is not None and r.width >= 0 and r.width == int(r.width):
+                return d["program"]
+
+    for nm, code in SEAC_BASES + SEAC_ACCENTS:
+        names.append(nm)
+        progs.append(outline_glyph())
+    composed = []
+    for k in range(10):
+        (bn, bc), (an, ac) = rnd.choice(SEAC_BASES), rnd.choice(SEAC_ACCENTS)
+        adx, ady = rnd.randint(-200, 300), rnd.randint(-100, 700)
+        form = k % 3
+        if form == 0:
+            p = [adx, ady, bc, ac, "endchar"]                                   # 4 operands, default width
+        elif form == 1:
+            p = [rnd.choice([-120, 57, 108, 250, 1131]), adx, ady, bc, ac, "endchar"]   # width + 4 operands
+        else:
+            p = [rnd.choice([-33, 99, 400]), 10, 20, 300, 40, "hstem", adx, ady, bc, ac, "endchar"]   # width taken by the hint
+        names.append("%s%s.%d" % (bn, an, k))
+        progs.append(p)
+        composed.append(len(progs))           # glyph index (.notdef is 0)
+    refs = [_ref(p, False, False) for p in progs]
+    local = glob = []
+    sp = progs
+    if case["part"] % 2:
+        sp, local, glob = GP.subroutinize(rnd, progs, cff2=False, max_depth=rnd.choice([1, 2, 3]), mask_subrs=0.5)
+        for i, q in enumerate(sp):
+            r = _ref(q, False, False, lsubrs=local, gsubrs=glob)
+            if isinstance(r, str) or r.errors or r.path != refs[i].path or r.width != refs[i].width or r.seac != refs[i].seac:
+                sp[i] = progs[i]
+                ctx.note("generator.subroutinised-rejected")
+    adv = {n: max(0, int(r.width)) for n, r in zip(names, refs)}
+    adv[".notdef"] = 333
+    try:
+        with ctx.lib("build-font"):
+            data0, gnames = GF.build_cff(sp, local, glob, private={"nominalWidthX": 500, "defaultWidthX": 333},
+                                         advances=adv, names=names)
+    except LibRaised:
+        return
+    # oracles must agree on the input: byte-level reference machine (with accent composition) vs HarfBuzz
+    tab = _cff_table(data0)
+    h = Renderer(data0)
+    for g in composed:
+        rb = tab.run(g)
+        ho = h.hb_outline(g)
+        if rb.errors or not rb.path or not same_fill(rb.path, ho, 1e-6)[0]:
+            ctx.inconclusive("oracle disagreement t2ref-bytes/HarfBuzz on composed glyph %d (%s)" % (g, rb.errors[:2]))
+            return
+    wanted = [gnames[g] for g in composed]
+    diag = _Diag(data0, data0)
+    for variant in range(3):
+        opts = subset.Options()
+        opts.retain_gids = variant != 1
+        opts.desubroutinize = variant == 2
+        opts.hinting = variant != 2
+        opts.notdef_outline = True
+        opts.glyph_names = True
+        opts.layout_features = ["*"]
+        opts.name_IDs = ["*"]
+        opts.recalc_timestamp = False
+        label = "seac:subset"
+        ok = False
+        for quiet in (True, False):            # plain run first, then monitored (see _apply)
+            font = TTFont(io.BytesIO(data0), recalcTimestamp=False, recalcBBoxes=False)
+
+            def run():
+                sub = subset.Subsetter(opts)
+                sub.populate(glyphs=list(wanted))
+                sub.subset(font)
+                return corpus.save_bytes(font)
+            if quiet:
+                with hooks.quiet():
+                    ok, data1 = _try(ctx, "subset", run)
+                if not ok:
+                    break
+            else:
+                try:
+                    run()
+                except Exception:
+                    ctx.note("monitored-run-raised")
+        if not ok:
+            continue
+        order1 = TTFont(io.BytesIO(data1), lazy=True).getGlyphOrder()
+        pairs = [(g, order1.index(gnames[g])) for g in composed if gnames[g] in order1]
+        if len(pairs) != len(composed):
+            ctx.judged()
+            ctx.violation({"kind": "render", "op": label, "oracle": "glyph-order", "field": "glyph-missing"},
+                          "%s: requested glyphs missing from the subset font" % label, {"wanted": wanted, "after": order1[:40]})
+        r0, r1 = Renderer(data0), Renderer(data1)
+        d2 = _Diag(data0, data1)
+        render_compare(ctx, label, r0, r1, [(a, b, gnames[a]) for a, b in pairs], mode="fill" if variant == 2 else "topology",
+                       witness=lambda lab: {"options": {"retain_gids": opts.retain_gids, "desubroutinize": opts.desubroutinize,
+                                                          "hinting": opts.hinting}, "requested": wanted}, diag=d2)
+        _compare_bytes(ctx, label, data0, data1, "topology", None, d2, pairs=pairs)
+        b0, b1 = bare_widths(data0), bare_widths(data1)
+        if b0 and b1:
+            for a, b in pairs:
+                ctx.judged()
+                if b0.get(a) is not None and b1.get(b) != b0.get(a):
+                    ctx.violation(dict({"kind": "render", "op": label, "oracle": "freetype", "field": "width" if b1.get(b) is not None else "rejected"}, **d2(a, b)),
+                                  "%s: FreeType reads width %r for %s, %r before" % (label, b1.get(b), gnames[a], b0.get(a)), {"glyph": gnames[a]})
+        _cur["keys"].add("seac|subset|v%d|%s" % (variant, "subr" if case["part"] % 2 else "flat"))
+    # the other rewrites that keep the CFF dialect (CFF2 has no accent composition)
+    for op in ("desubroutinize", "remove_hints", "remove_unused_subroutines"):
+        res = _apply(ctx, data0, op)
+        if res is None:
+            continue
+        data1, mode = res
+        _compare_fonts(ctx, "seac:" + op, data0, data1, mode, rnd)
+        _cur["keys"].add("seac|%s" % op)
+    ctx.sample = {"case": case["id"], "composed_glyphs": wanted, "forms": "4-operand, width+4, width-on-hstem+4",
+                  "subroutinised": bool(case["part"] % 2)}
 
 
 def drv_bias(case, rnd, ctx):
